@@ -124,12 +124,17 @@ pub const MIX: [Api; 6] = [Api::Write, Api::WriteFmt, Api::WriteAll, Api::Write,
 pub const APIS: [Api; 4] = [Api::Write, Api::WriteAll, Api::WriteFmt, Api::WriteVectored];
 pub const ALL_APIS: [Api; 8] = [Api::Write, Api::WriteAll, Api::WriteFmt, Api::WriteVectored, Api::WriteFmtLiteral, Api::WriteFmtBig, Api::WriteFmtChars, Api::Mixed];
 
-pub const LITERALS: [&str; 5] = [
+pub const LITERALS: [&str; 9] = [
     "status: \x1b[32mall good\x1b[0m (42 items)\n",
     "plain literal text",
     "\x1b[1;31merror\x1b[0m: \u{e9}\u{6f22}\u{1f600} \x1b[4munderlined",
     "x",
     "\x1b[38;5;208morange\x1b[m \x1b]0;title\x07done\r\n",
+    // literals that only make sense as the continuation of an earlier call
+    "m",
+    ";31mb",
+    "window title",
+    "1mred",
 ];
 
 fn write_literal(w: &mut dyn Write, idx: usize) -> io::Result<()> {
@@ -138,6 +143,10 @@ fn write_literal(w: &mut dyn Write, idx: usize) -> io::Result<()> {
         1 => write!(w, "plain literal text"),
         2 => write!(w, "\x1b[1;31merror\x1b[0m: \u{e9}\u{6f22}\u{1f600} \x1b[4munderlined"),
         3 => write!(w, "x"),
+        5 => write!(w, "m"),
+        6 => write!(w, ";31mb"),
+        7 => write!(w, "window title"),
+        8 => write!(w, "1mred"),
         _ => write!(w, "\x1b[38;5;208morange\x1b[m \x1b]0;title\x07done\r\n"),
     }
 }
@@ -592,6 +601,31 @@ pub fn run(cfg: &Cfg) -> Stats {
             let run = Run { input, cuts: &[], script: &script, api: Api::WriteFmtLiteral, styles: true };
             eval(&run, &mut st, true);
             idx += n;
+        }
+        // a literal formatted write that continues a sequence the previous call left open (and one that sits inside an
+        // operating system command): the literal is not text
+        if shard == 0 {
+            for (prefix, lit, suffix) in [("ab\x1b[1", 5usize, "z"), ("a\x1b[1", 6, "c"), ("q\x1b]0;", 7, "\x07x"), ("\x1b[3", 3, "y"), ("k\x1b[38;5;1", 5, "r"), ("\x1b[4", 6, ""), ("A\x1b[3", 8, "."), ("t\x1b]2;", 8, "\x1b\\u")] {
+                let mut input = prefix.as_bytes().to_vec();
+                input.extend_from_slice(LITERALS[lit].as_bytes());
+                let c1 = prefix.len();
+                let c2 = input.len();
+                input.extend_from_slice(suffix.as_bytes());
+                let cuts: Vec<usize> = if suffix.is_empty() { vec![c1] } else { vec![c1, c2] };
+                for script in [&[][..], &[Step::Accept(1)], &[Step::All, Step::Accept(2), Step::All]] {
+                    for api in [Api::WriteFmtLiteral, Api::Mixed] {
+                        let run = Run { input: &input, cuts: &cuts, script, api, styles: true };
+                        eval(&run, &mut st, true);
+                    }
+                }
+            }
+            // a colour specification cut short inside a colon group, followed by complete ones in the same sequence
+            for text in ["A\x1b[38:2:10:20;38;2;200;31;44mB\x1b[0mC", "A\x1b[48:2:1;31mB", "\x1b[38:5;38;5;2;45mX\x1b[mY", "a\x1b[58:2:1:2;38;2;9;9;35;42mb"] {
+                for api in [Api::WriteAll, Api::Write, Api::WriteFmt] {
+                    let run = Run { input: text.as_bytes(), cuts: &[], script: &[], api, styles: true };
+                    eval(&run, &mut st, true);
+                }
+            }
         }
         // long runs: one text run of 2^k-2..2^k+2 bytes (plain, styled, multi-byte characters at every offset against
         // the threshold), whole and in two chunks, every all-or-nothing API, without faults and with one short count
